@@ -45,6 +45,7 @@ type Contract struct {
 	Inline    bool
 	NoReturn  bool
 	Benign    bool // no heap effects (havocs nothing) but result is fresh
+	AssumeBenign bool // callers assume no heap effects; NOT verified against the body (listed as assumption)
 	Modifies  []string
 	Nullable  map[string]bool
 	Nonnil    map[string]bool
@@ -84,7 +85,7 @@ type ContractSet struct {
 
 var clauseKeywords = map[string]bool{
 	"prop": true, "ints": true, "pure": true, "trusted": true, "safety": true, "inline": true, "noreturn": true,
-	"benign": true, "modifies": true, "nullable": true, "nonnil": true, "requires": true, "ensures": true,
+	"benign": true, "assume-benign": true, "modifies": true, "nullable": true, "nonnil": true, "requires": true, "ensures": true,
 	"loop": true, "decreases": true, "call": true, "cover": true, "define": true, "summary": true,
 	"bounded": true, "replay": true, "fresh": true, "note": true, "theory": true,
 }
@@ -280,6 +281,8 @@ func (cs *ContractSet) loadFile(path, pkg string, external bool) error {
 			cur.NoReturn = true
 		case "benign":
 			cur.Benign = true
+		case "assume-benign":
+			cur.AssumeBenign = true
 		case "summary":
 			cur.HO = rest
 		case "modifies":
